@@ -1,5 +1,6 @@
 import ArrProofs.Lemmas.C01Machine
 import ArrProofs.Lemmas.C01Ext
+import ArrProofs.Lemmas.C01Diff
 /-!
 # C01 — shape and element count never disagree on any result of any operation chain
 
@@ -16,6 +17,9 @@ constructors, bit packing, operator overloads).
 * `eval_wf`: one case per operation of the machine — on a store whose arrays are all consistent, whatever the
   operation returns (an array, every member of a returned list / pair) is consistent;
 * `run_wf` / `reachable_wf`: the invariant on every store reachable by any finite chain (induction over the chain);
+* `adjDiff_element` … `convolve_spec`: what the operations of `ArrModel/C01Diff.lean` (`ediff1d`, `diff`, `insert` with an axis,
+  `convolve`) compute — first-order difference, `n`-fold iteration, the lane-wise reading of the N-D arm of `diff`, the defining
+  double sum of the convolution and its three windows, the refusals;
 * `bypass_*`: the operator impls that build `Array { elements, shape }` without validation are consistent **only
   because** both operands are (the hypotheses of the corresponding `eval_wf` cases cannot be dropped).
 All statements are for every shape (any rank, unit axes, zero-length axes) and every chain length.
@@ -230,6 +234,22 @@ theorem eval_wf (s : Store) (hs : StoreWF s) (op : Op) : ValWF (eval s op) := by
     · trivial
   | strReplace a o n cnt =>
     exact with3_wf hs fun a o n _ _ _ => ofRes_map_wf blankArr_wf fun r h => c01x_strReplace_wf _ _ _ _ _ h
+  | ediff1d a e b =>
+    refine with1_wf hs fun a _ => ?_
+    split
+    · exact c01d_ediff1d_wf a _ _
+    · trivial
+  | diff a n axis p q =>
+    refine with1_wf hs fun a _ => ?_
+    split
+    · exact ofRes_wf fun r h => c01d_diff_wf a 0 n axis _ _ h
+    · trivial
+  | insertAxis a indices v axis =>
+    exact with2_wf hs fun a v ha hv => ofRes_wf fun r h => c01d_insertAxis_wf a 0 indices v axis ha hv h
+  | convolve a b mode => exact with2_wf hs fun a b _ _ => ofRes_wf fun r h => c01d_convolve_wf a b mode h
+  | modf a => exact with1_wf hs fun a ha => ofResP_wf fun r h => c01d_modfPair_wf a ha h
+  | divmod a => exact with1_wf hs fun a ha => ofResP_wf fun r h => c01d_divmodPair_wf a ha h
+  | frexp a => exact with1_wf hs fun a _ => ofResP_wf fun r h => ⟨(c01d_frexpPair_wf a h).1, (c01d_frexpPair_wf a h).2.1⟩
   | extern e => exact ext_wf e
 
 /-- one step keeps the invariant (earlier entries are never touched, the new entry is consistent) -/
@@ -294,7 +314,160 @@ theorem bypass_assign_needs_wf : ∃ (a b r : A), b.WF ∧ a.shape = b.shape ∧
 theorem validated_binop_wf (f : Int → Int → Int) (a b r : A) (h : C20.binop f a b = .ok r) : r.WF :=
   c20_binop_wf_unconditional f a b h
 
+/-! ## `ediff1d`, `diff`, `insert` with an axis, `convolve` (`ArrModel/C01Diff.lean`): what the machine's new operations compute -/
+
+/-- first-order difference: element `i` of the adjacent differences of a lane is `l[i+1] - l[i]`, and there are `len - 1` of them -/
+theorem adjDiff_element [Sub α] (l : List α) (i : Nat) (h : i + 1 < l.length) :
+    (adjDiff l)[i]? = some (l[i + 1] - l[i]) ∧ (adjDiff l).length = l.length - 1 :=
+  ⟨adjDiff_getElem? l i h, adjDiff_length l⟩
+
+/-- `n`-th order difference = `n`-fold iteration of the first-order one; it is `n` elements shorter (empty once `n ≥ len`) -/
+theorem iterDiff_iterates [Sub α] (n : Nat) (l : List α) :
+    iterDiff 0 l = l ∧ iterDiff (n + 1) l = adjDiff (iterDiff n l) ∧ (iterDiff n l).length = l.length - n :=
+  ⟨rfl, iterDiff_succ' n l, iterDiff_length n l⟩
+
+/-- `ediff1d(to_end, to_begin)`: `to_begin`, then the adjacent differences of the flattened receiver, then `to_end`; shape `[count]` -/
+theorem ediff1d_spec [Sub α] (a : Arr α) (e b : Option (Arr α)) :
+    (a.ediff1d e b).elems = Arr.optElems b ++ adjDiff a.elems ++ Arr.optElems e ∧
+    (a.ediff1d e b).shape = [(Arr.optElems b).length + (a.elems.length - 1) + (Arr.optElems e).length] ∧ (a.ediff1d e b).WF :=
+  ⟨(c01d_ediff1d_spec a e b).1, (c01d_ediff1d_spec a e b).2, c01d_ediff1d_wf a e b⟩
+
+/-- … element-wise: position `|to_begin| + i` holds `a[i+1] - a[i]` -/
+theorem ediff1d_element [Sub α] (a : Arr α) (e b : Option (Arr α)) (i : Nat) (h : i + 1 < a.elems.length) :
+    (a.ediff1d e b).elems[(Arr.optElems b).length + i]? = some (a.elems[i + 1] - a.elems[i]) := by
+  rw [(c01d_ediff1d_spec a e b).1, List.append_assoc, List.getElem?_append_right (Nat.le_add_right _ _),
+    Nat.add_sub_cancel_left, List.getElem?_append_left (by rw [adjDiff_length]; omega)]
+  exact adjDiff_getElem? a.elems i h
+
+/-- `diff` refuses an axis outside the rank (whatever `n` is), and order 0 answers the empty array -/
+theorem diff_refusals [Sub α] (a : Arr α) (zero : α) (n : Nat) (axis : Option Int) (p q : Option (Arr α)) :
+    (Arr.diffAxisBad a.ndim axis = true → a.diff zero n axis p q = .err .AxisOutOfBounds) ∧
+    (Arr.diffAxisBad a.ndim axis = false → n = 0 → a.diff zero n axis p q = .ok Arr.empty) := by
+  constructor
+  · intro h; unfold Arr.diff; rw [h]; rfl
+  · intro h hn; unfold Arr.diff; rw [h, hn]; rfl
+
+/-- `diff` of a rank-1 array: the `n`-th order difference of `prepend ++ elements ++ append`, shape `[len - n]` -/
+theorem diff_rank1 [Sub α] (a : Arr α) (zero : α) (n : Nat) (axis : Option Int) (p q : Option (Arr α))
+    (hax : Arr.diffAxisBad a.ndim axis = false) (hn : n ≠ 0) (h1 : a.ndim = 1) :
+    ∃ r, a.diff zero n axis p q = .ok r ∧ r.elems = iterDiff n (Arr.optElems p ++ a.elems ++ Arr.optElems q) ∧
+      r.shape = [(Arr.optElems p).length + a.elems.length + (Arr.optElems q).length - n] ∧ r.WF := by
+  refine ⟨_, c01d_diff_flat_spec a zero n axis p q hax hn h1, rfl, ?_, flat_wf _⟩
+  simp [Arr.flat, iterDiff_length, Nat.add_assoc]
+
+/-- `diff` of an array of another rank: the code re-lays the array (`diffRelay`) and takes the `n`-th order difference of every
+lane along the axis.  For the re-laid array `x` (no zero-length axis): the result has the shape of `x` with the axis shortened
+by `n`, it is consistent, and its element at coordinate `c` is element `c[axis]` of the `n`-th order difference of the lane of `x`
+through `c` — out[.., i, ..] = x[.., i+1, ..] - x[.., i, ..] for `n = 1` (`adjDiff_element`). -/
+theorem diff_nd_lanes [Sub α] (a : Arr α) (zero : α) (n : Nat) (axis : Option Int) (p q : Option (Arr α)) (x : Arr α)
+    (hax : Arr.diffAxisBad a.ndim axis = false) (hn : n ≠ 0) (h1 : a.ndim ≠ 1)
+    (hin : normalizeAxis a.ndim (axis.getD (-1)) < a.ndim)
+    (hx : a.diffRelay zero (normalizeAxis a.ndim (axis.getD (-1))) p q = .ok x)
+    (hxa : normalizeAxis a.ndim (axis.getD (-1)) < x.ndim) (hnz : 0 ∉ x.shape) :
+    ∃ r, a.diff zero n axis p q = .ok r ∧
+      r.shape = x.shape.set (normalizeAxis a.ndim (axis.getD (-1))) (x.shape.getD (normalizeAxis a.ndim (axis.getD (-1))) 0 - n) ∧
+      r.WF ∧
+      ∀ c, inRange r.shape c = true →
+        r.get? c = (iterDiff n (laneOf x (normalizeAxis a.ndim (axis.getD (-1))) c))[c.getD (normalizeAxis a.ndim (axis.getD (-1))) 0]? := by
+  obtain ⟨r, h1', h2, h3, h4⟩ := c01d_diff_lanes x zero n _ (c01d_diffRelay_wf a zero _ p q hx) hxa hnz
+  refine ⟨r, ?_, h2, h3, h4⟩
+  rw [c01d_diff_nd_eq a zero n axis p q hax hn h1 hin, hx]
+  exact h1'
+
+/-- whatever `diff` answers is consistent (every arm), and so is what `insert` with an axis answers; on a receiver of rank ≠ 1 the
+latter has the shape the code computes (on a rank-1 receiver the call IS the flat insert of C13): the receiver's shape with the axis length replaced, axes 0 and `axis` swapped, then permuted by
+`(1..ndim).insert_at(axis, 0)` -/
+theorem diff_insertAxis_wf [Sub α] (a : Arr α) (zero : α) (ha : a.WF) :
+    (∀ n axis p q r, a.diff zero n axis p q = .ok r → r.WF) ∧
+    (∀ indices v axis r, v.WF → a.insertAxis zero indices v axis = .ok r → r.WF ∧ axis < a.ndim ∧
+      (a.ndim ≠ 1 →
+        ∃ K, r.shape = permute ((List.range' 1 (a.ndim - 1)).insertIdx axis 0) (swapExt (a.shape.set axis K) 0 axis))) ∧
+    (∀ indices v, a.ndim = 1 → indices.any (fun i => decide (i > a.shape.getD 0 0)) = false → v.ndim = 1 →
+      a.insertAxis zero indices v 0 = a.insertFlat indices v) :=
+  ⟨fun n axis p q _ h => c01d_diff_wf a zero n axis p q h,
+   fun indices v axis _ hv h => ⟨c01d_insertAxis_wf a zero indices v axis ha hv h, by
+      unfold Arr.insertAxis at h
+      split at h
+      · cases h
+      · rename_i hax; exact Nat.not_le.mp hax,
+      fun h1 => (c01d_insertAxis_shape a zero indices v axis h1 h).2⟩,
+   fun indices v h1 hix hv => c01d_insertAxis_rank1 a zero indices v h1 hix hv⟩
+
+/-- `convolve`: the accumulation loop computes the defining sum — position `k` of the full product is `Σ_{i+j=k} x[i]·y[j]`
+(`convCoeff`), for every `k < n + m - 1` -/
+theorem convolve_full_coeff (x y : List Int) (k : Nat) (hk : k < x.length + y.length - 1) :
+    (convFull x y)[k]? = some (convCoeff x y k) ∧ (convFull x y).length = x.length + y.length - 1 :=
+  ⟨convFull_getElem? x y k hk, convFull_length x y⟩
+
+/-- … and the three modes cut the windows `full`: all `n + m - 1`, `valid`: `n - m + 1` from offset `m - 1`, `same`: `n` from
+offset `(m - 1) / 2` (`n ≥ m ≥ 1` the longer / shorter operand): length and every element -/
+theorem convolve_window (md : ConvMode) (x y : List Int) (hm : 1 ≤ y.length) (hnm : y.length ≤ x.length) :
+    (convWindow md x.length y.length (convFull x y)).length = convLen md x.length y.length ∧
+    (convLen .full x.length y.length = x.length + y.length - 1 ∧ convLen .valid x.length y.length = x.length - y.length + 1 ∧
+      convLen .same x.length y.length = x.length ∧ convOffset .full y.length = 0 ∧ convOffset .valid y.length = y.length - 1 ∧
+      convOffset .same y.length = (y.length - 1) / 2) ∧
+    ∀ k, k < (convWindow md x.length y.length (convFull x y)).length →
+      (convWindow md x.length y.length (convFull x y))[k]? = some (convCoeff x y (k + convOffset md y.length)) :=
+  ⟨convWindow_length md x y hm hnm, ⟨rfl, rfl, rfl, rfl, rfl, rfl⟩, fun k hk => convWindow_getElem? md x y hm hnm k hk⟩
+
+/-- `convolve` on arrays: refused when an operand has no element or the mode text is none of `full` / `valid` / `same`; otherwise
+the flat array of the window of the product of the longer by the shorter operand -/
+theorem convolve_spec (a b : Arr Int) (mode : Option (List Char)) :
+    ((a.len = 0 ∨ b.len = 0) → a.convolve b mode = .err .ParameterError) ∧
+    (a.len ≠ 0 → b.len ≠ 0 → convModeOf mode = none → a.convolve b mode = .err .ParameterError) ∧
+    (a.len ≠ 0 → b.len ≠ 0 → ∀ md, convModeOf mode = some md →
+      a.convolve b mode = .ok (Arr.flat (convWindow md (max a.len b.len) (min a.len b.len)
+        (if b.len > a.len then convFull b.elems a.elems else convFull a.elems b.elems)))) := by
+  constructor
+  · intro h
+    unfold Arr.convolve
+    rw [if_pos (by rcases h with h | h <;> simp [h])]
+  constructor
+  · intro ha hb hmd
+    unfold Arr.convolve
+    rw [if_neg (by simp [ha, hb]), hmd]
+  · intro ha hb md hmd
+    unfold Arr.convolve
+    rw [if_neg (by simp [ha, hb]), hmd]
+    dsimp only
+    by_cases hlt : b.len > a.len
+    · simp only [if_pos hlt]
+      rw [show max a.len b.len = b.elems.length from by simp [Arr.len] at hlt ⊢; omega,
+          show min a.len b.len = a.elems.length from by simp [Arr.len] at hlt ⊢; omega]
+    · simp only [if_neg hlt]
+      rw [show max a.len b.len = a.elems.length from by simp [Arr.len] at hlt ⊢; omega,
+          show min a.len b.len = b.elems.length from by simp [Arr.len] at hlt ⊢; omega]
+
+/-- the pair-returning `frexp`: on a consistent receiver it succeeds, and both members (mantissas, exponents) are consistent
+and have exactly the receiver's shape; `modf` / `divmod`: both members of whatever they answer are consistent -/
+theorem pairs_wf (a : A) (ha : a.WF) :
+    (∃ r, frexpPair a = .ok r ∧ r.1.WF ∧ r.2.WF ∧ r.1.shape = a.shape ∧ r.2.shape = a.shape) ∧
+    (∀ r, modfPair a = .ok r → r.1.WF ∧ r.2.WF) ∧ (∀ r, divmodPair a = .ok r → r.1.WF ∧ r.2.WF) := by
+  obtain ⟨r, hr⟩ := c01d_frexpPair_ok a ha
+  exact ⟨⟨r, hr, c01d_frexpPair_wf a hr⟩, fun _ h => c01d_modfPair_wf a ha h, fun _ h => c01d_divmodPair_wf a ha h⟩
+
 /-! ## non-vacuity -/
+
+/-- the hypotheses of `diff_nd_lanes` are satisfiable (a 2×3 array, last axis), and the code's re-lay is NOT the identity for an
+outer axis of a rank-3 array (the 4×3×2 array of squares, axis 0: the lane differences come out in permuted order) -/
+example : ∃ x, (⟨[0, 1, 4, 9, 16, 25], [2, 3]⟩ : A).diffRelay 0 1 none none = .ok x ∧ 1 < x.ndim ∧ 0 ∉ x.shape ∧
+    (⟨[0, 1, 4, 9, 16, 25], [2, 3]⟩ : A).diff 0 1 none none none = .ok ⟨[1, 3, 7, 9], [2, 2]⟩ :=
+  ⟨⟨[0, 1, 4, 9, 16, 25], [2, 3]⟩, by decide +kernel, by decide, by decide, by decide +kernel⟩
+example : ((⟨(List.range 24).map (fun i => Int.ofNat (i * i)), [4, 3, 2]⟩ : A).diff 0 1 (some 0) none none).map (·.elems.take 4) =
+    .ok [36, 72, 48, 84] := by decide +kernel
+example : Arr.diffAxisBad 2 (some 2) = true ∧ Arr.diffAxisBad 2 (some (-1)) = false ∧ Arr.diffAxisBad 0 none = false := by decide
+example : (⟨[7], []⟩ : A).diff 0 1 none none none = .panic := by decide +kernel
+example : (⟨[1, 4, 9], [3]⟩ : A).diff 0 2 none (some ⟨[0], [1]⟩) none = .ok ⟨[2, 2], [2]⟩ := by decide +kernel
+example : (⟨[0, 1, 4, 9, 16, 25], [2, 3]⟩ : A).insertAxis 0 [0, 2] ⟨[100, 200, 300], [3]⟩ 0 =
+    .ok ⟨[100, 200, 300, 0, 1, 4, 9, 16, 25, 100, 200, 300], [4, 3]⟩ := by decide +kernel
+example : (⟨[1, 2, 3], [3]⟩ : A).convolve ⟨[0, 1, 5], [3]⟩ none = .ok ⟨[0, 1, 7, 13, 15], [5]⟩ ∧
+    (⟨[1, 2, 3], [3]⟩ : A).convolve ⟨[0, 1], [2]⟩ (some ['s', 'a', 'm', 'e']) = .ok ⟨[0, 1, 2], [3]⟩ ∧
+    (⟨[1, 2, 3], [3]⟩ : A).convolve ⟨[0, 1], [2]⟩ (some ['S', 'a', 'm', 'e']) = .err .ParameterError ∧
+    convCoeff [1, 2, 3] [0, 1, 5] 2 = 7 := by decide +kernel
+example : (run [.new 6 0 [2, 3], .diff 0 1 (some 0) none none, .ediff1d 0 none (some 1), .new 2 5 [2], .convolve 0 3 none,
+      .insertAxis 0 [1] 3 1, .insertAxis 0 [1] 3 2]).map
+      (fun v => match v with | .arr a => some a.shape | _ => none) =
+    [some [2, 3], some [1, 3], some [8], some [2], some [7], some [2, 4], none] := by decide +kernel
 
 /-- a chain through constructors, axis moves, a split, a member, joins, a bypass operator, a product, a reduction:
 the machine really produces arrays, lists, errors and panics -/
